@@ -110,6 +110,13 @@ def c01_probes() -> list[Item]:
                    ("PUSH", 32), ("PUSH", 0x60), ("PUSH", 0), ("PUSH", 0), ("PUSH", CALLEE), ("PUSH", 0xFFFFF), "DELEGATECALL", "POP",
                    "CODESIZE", ("PUSH", 0x80), "MSTORE", ("PUSH", 0x60), ("PUSH", 0x40), "RETURN"],
                   accounts={CALLEE: lib}))
+    # inside init code the call data is empty: CALLDATASIZE is 0, CALLDATALOAD and CALLDATACOPY read zeros (not the init code)
+    init_cd = assemble([("PUSHN", 32, (1 << 256) - 1), ("PUSH", 0), "MSTORE", ("PUSH", 32), ("PUSH", 0), ("PUSH", 0), "CALLDATACOPY",
+                        "CALLDATASIZE", ("PUSH", 32), "MSTORE", ("PUSH", 0), "CALLDATALOAD", ("PUSH", 64), "MSTORE", ("PUSH", 96), ("PUSH", 0), "RETURN"])
+    out.append(_p("calldata-in-initcode",
+                  [("PUSHL", "ic_end"), ("PUSHL", "ic"), "SWAP1", "SUB", "DUP1", ("PUSHL", "ic"), ("PUSH", 0x100), "CODECOPY", ("PUSH", 0x100), ("PUSH", 0), "CREATE",
+                   ("PUSH", 96), ("PUSH", 0), ("PUSH", 0x40), "DUP4", "EXTCODECOPY", "POP", ("PUSH", 96), ("PUSH", 0x40), "RETURN",
+                   ("MARK", "ic"), ("RAW", init_cd), ("MARK", "ic_end")]))
     # RETURNDATACOPY from a non-zero offset of the return data (three words: 0xAAAA, cd0, cd1), in front of / over dirty memory
     three = assemble([("PUSH", 0xAAAA), ("PUSH", 0), "MSTORE", ("PUSH", 0), "CALLDATALOAD", ("PUSH", 32), "MSTORE", ("PUSH", 32), "CALLDATALOAD", ("PUSH", 64), "MSTORE",
                       ("PUSH", 96), ("PUSH", 0), "RETURN"])
